@@ -307,6 +307,7 @@ func langCheck(prop, tier string) int {
 				States   int64          `json:"states"`
 				MaxSched int64          `json:"max_schedules_per_input"`
 				Leaky    int64          `json:"inputs_leaving_the_lexer_goroutine_blocked"`
+				Budget   int64          `json:"workers_out_of_budget"`
 				Viol     []ev.Violation `json:"viol"`
 			}
 			data, err := os.ReadFile(f)
@@ -315,6 +316,10 @@ func langCheck(prop, tier string) int {
 			}
 			for _, v := range sp.Viol {
 				run.Report(v)
+			}
+			if sp.Budget > 0 {
+				exhaustive = false
+				run.Set("cap", "a worker of the schedule part exceeded the wall-clock budget")
 			}
 			run.Set("schedule_part", map[string]any{"inputs": sp.Inputs, "schedules_explored": sp.Execs, "scheduler_states": sp.States, "max_schedules_per_input": sp.MaxSched,
 				"inputs_leaving_the_lexer_goroutine_blocked_after_the_parse_returned": sp.Leaky,
